@@ -47,8 +47,8 @@ def build_cases(tier, seed):
 
 
 FLOORS = {
-    "quick": {"c06_moves": 10000, "c06_split_moves": 3000, "c06_journeys_completed": 800, "c06_progress_checks": 5000, "c06_arrivals": 800, "c06_arrivals_at_station_with_full_battery": 3},
-    "thorough": {"c06_moves": 200000, "c06_split_moves": 60000, "c06_journeys_completed": 15000, "c06_progress_checks": 100000, "c06_arrivals": 15000, "c06_arrivals_at_station_with_full_battery": 30},
+    "quick": {"c06_moves": 10000, "c06_split_moves": 3000, "c06_journeys_completed": 800, "c06_progress_checks": 5000, "c06_arrivals": 800, "c06_arrivals_at_station_with_full_battery": 3, "c06_stored_routes_compared_with_the_previous_step": 5000},
+    "thorough": {"c06_moves": 200000, "c06_split_moves": 60000, "c06_journeys_completed": 15000, "c06_progress_checks": 100000, "c06_arrivals": 15000, "c06_arrivals_at_station_with_full_battery": 30, "c06_stored_routes_compared_with_the_previous_step": 20000},
 }
 
 
